@@ -948,3 +948,112 @@ def rule_ctor_params_stored(ctx, rep: Report, rid="G11", package="gtwrap/interfa
                         f"captured for it (a base class, a flag, a list) is missing from the node", f"{mi.rel}:{init.lineno}")
     if n < min_params:
         raise AnalysisError(f"{rep.prop}/{rid}: only {n} constructor parameters of parser nodes found")
+
+
+# ------------------------------------------------------------------------------------------------------------------
+# G13: the shape of a named result (one value, or pyparsing's list wrapper) agrees with how the constructor uses it
+LIST_KINDS = {"ZeroOrMore", "OneOrMore", "Group", "Each", "Dict", "DelimitedList"}
+
+
+def save_as_list(n: GNode, _seen=None) -> bool:
+    """pyparsing's static `saveAsList` of an element: And is a list container (its default), Or / MatchFirst are when
+    one alternative is, Optional / Forward / other wrappers take it from what they wrap, repetitions and Group always,
+    terminals, Suppress, Combine and originalTextFor never."""
+    _seen = _seen if _seen is not None else set()
+    if n.uid in _seen:
+        return False
+    _seen = _seen | {n.uid}
+    if n.kind == "And":
+        return True
+    if n.kind in LIST_KINDS:
+        return True
+    if n.kind in ("Or", "MatchFirst"):
+        return any(save_as_list(c, _seen) for c in n.children)
+    if n.kind in ("Optional", "Forward"):
+        return any(save_as_list(c, _seen) for c in n.children)
+    return False
+
+
+def result_shape(n: GNode) -> str:
+    """What `tokens.<name>` holds for the named element n: 'value' (the object its own parse action returned, or the
+    matched text), 'list' (the values of a sequence / repetition) or 'wrapped' (an alternation of node rules without an
+    action of its own: the one node that matched, inside pyparsing's list wrapper)."""
+    if n.action is not None:
+        return "value"          # ParseResults(<returned object>, name, asList=... and isinstance(tokens, list)): the object itself
+    if not save_as_list(n):
+        return "value"
+    core = n
+    while core.kind in ("Optional", "Forward") and core.action is None and len(core.children) == 1:
+        core = core.children[0]
+    def one_node(c, seen=()) -> bool:
+        if c.action is not None:
+            return True
+        return c.kind == "Forward" and c.uid not in seen and len(c.children) == 1 and one_node(c.children[0], seen + (c.uid,))
+    if core.kind in ("Or", "MatchFirst") and core.action is None and core.children and all(one_node(c) for c in core.children):
+        return "wrapped"        # exactly one node, inside a list wrapper
+    return "list"               # a sequence of values: a list is what it is
+
+
+def rule_result_shapes(ctx, rep: Report, rid="G13", min_bindings=20):
+    """A results name on an element that has no parse action of its own and is a list container - an alternation of
+    node rules `(A.rule ^ B.rule)("base")`, a bare sequence, a repetition - yields pyparsing's list wrapper, not the
+    node.  (The repository patches ParseResults.__getattr__ to answer '' for unknown names, so reading `.name` off the
+    wrapper silently gives ''.)  Wherever an action hands such a result to a constructor as it is, the constructor has
+    to take it apart: subscript, iteration, asList().  Storing the wrapper in a field that readers treat as a node is the
+    defect this rule reports; the converse - taking `[0]` of a single value - is reported as well."""
+    g, aa, prog = ctx.grammar, ctx.actions, ctx.prog
+    root, _ = parse_root(ctx)
+    n = 0
+    for a in aa.distinct_actions(root):
+        lab = aa.label(a)
+        calls = aa.constructor_calls(a.action)
+        if not calls:
+            continue
+        defined = Scope(g, a).defined_names()
+        for call, ci, init, mod, tokvar in calls:
+            try:
+                b = bind_call(init, call, drop_self=True)
+            except AnalysisError:
+                continue
+            for p, argx in b.items():
+                if p.startswith("<") or not (isinstance(argx, ast.Attribute) and isinstance(argx.value, ast.Name) and argx.value.id == tokvar):
+                    continue
+                nodes = defined.get(argx.attr, [])
+                if not nodes:
+                    continue
+                shapes = {result_shape(x) for x in nodes}
+                n += 1
+                uses = [x for x in ast.walk(init) if isinstance(x, ast.Name) and x.id == p and isinstance(x.ctx, ast.Load)]
+                taken_apart = []
+                as_value = []
+                for u in uses:
+                    q = parent(u)
+                    if isinstance(q, ast.Subscript) and q.value is u:
+                        taken_apart.append(f"{p}[{unparse(q.slice)}]")
+                    elif isinstance(q, (ast.For, ast.comprehension)) and q.iter is u:
+                        taken_apart.append(f"for .. in {p}")
+                    elif isinstance(q, ast.Attribute) and q.value is u and q.attr in ("asList", "as_list"):
+                        taken_apart.append(f"{p}.{q.attr}()")
+                    elif isinstance(q, ast.Call) and u in q.args and unparse(q.func) in ("list", "tuple", "len", "iter", "enumerate", "reversed", "sorted"):
+                        taken_apart.append(f"{unparse(q.func)}({p})")
+                    elif isinstance(q, ast.Attribute) and q.value is u:
+                        as_value.append(f"{p}.{q.attr}")
+                    elif isinstance(q, ast.Assign) and q.value is u and any(isinstance(t, ast.Attribute) for t in q.targets):
+                        as_value.append(f"{unparse(q.targets[0])} = {p}")
+                where = f"{ci.mod.rel}:{init.lineno}"
+                if shapes == {"wrapped"}:
+                    # stored / read as a value without ever having been taken apart
+                    ok = bool(taken_apart) or not as_value
+                    rep.add(rid, f"{lab}->{ci.qual}({p}):the one node inside a list wrapper is taken out by the constructor", ok,
+                            f"`{unparse(argx)}` is the list wrapper pyparsing builds for {nodes[0].describe()} (a named {nodes[0].kind} without a parse action of "
+                            f"its own), but {ci.qual}.__init__ uses it as the node itself ({as_value[:2]}): the field holds ParseResults([node]); `.name`, "
+                            f"`.namespaces` read off it are '' (unknown names answer ''), isinstance tests on it never hold", where)
+                elif shapes == {"value"}:
+                    idx = [t for t in taken_apart if t.startswith(f"{p}[")]
+                    guarded = any(isinstance(x, ast.Call) and unparse(x.func) == "isinstance" and x.args and unparse(x.args[0]) == p for x in ast.walk(init))
+                    rep.add(rid, f"{lab}->{ci.qual}({p}):a single value is not subscripted", not idx or guarded,
+                            f"`{unparse(argx)}` is the value of {nodes[0].describe()} itself, but {ci.qual}.__init__ takes {idx[:1]} of it", where,
+                            nontrivial=bool(idx))
+    rep.units["named_results_bound"] = n
+    if n < min_bindings:
+        raise AnalysisError(f"{rep.prop}/{rid}: only {n} named results handed to constructors ({min_bindings} expected)")
